@@ -44,19 +44,21 @@ scalar Tag%s
 enum E%s { ONE%s TWO }
 input I%s { a: Tag%s e: E }
 interface N%s { s: Tag tags: String }
-type O implements N%s { s: Tag tags: String e: E }
+type O implements N%s { s: Tag tags: String e: E h(y: Tag%s): Tag }
 union U%s = O
 type Query {
   f(x: I%s, y: Tag): Tag%s
   g(y: Tag%s): Tag
   o: O
+  os: [O]
   n: N
   u: U
   en(v: E): E
 }
 schema%s { query: Query }
 """ % ("\n".join("directive @t%d(id: String!) on %s" % (k + 1, ALL_LOCATIONS) for k in range(NDIR)),
-       d("SCALAR"), d("ENUM"), d("ENUM_VALUE"), d("INPUT_OBJECT"), d("INPUT_FIELD_DEFINITION"), d("INTERFACE"), d("OBJECT"), d("UNION"),
+       d("SCALAR"), d("ENUM"), d("ENUM_VALUE"), d("INPUT_OBJECT"), d("INPUT_FIELD_DEFINITION"), d("INTERFACE"), d("OBJECT"),
+       d("ARGUMENT_DEFINITION"), d("UNION"),
        d("ARGUMENT_DEFINITION"), d("FIELD_DEFINITION"), d("ARGUMENT_DEFINITION"), d("SCHEMA"))
 
 
@@ -161,6 +163,17 @@ def build(p):
             return r
         Resolver(fq, schema_name=name)(mk(fq))
 
+    # a list whose items are completed one after the other: the same field node is executed once per parent, at different times
+    @Resolver("Query.os", schema_name=name, list_concurrently=False)
+    async def r_os(parent, args, ctx, info):
+        harness.scenario_of(ctx).events.append(("resolver", "os", "call"))
+        return [{"_typename": "O", "s": "s0"}, {"_typename": "O", "s": "s1"}]
+
+    @Resolver("O.h", schema_name=name)
+    async def r_h(parent, args, ctx, info):
+        harness.scenario_of(ctx).events.append(("resolver", "h", "call"))
+        return render(args.get("y"))
+
     @Resolver("O.tags", schema_name=name)
     async def rtags(parent, args, ctx, info):
         return parent.get("_tags", "")
@@ -231,6 +244,21 @@ def expected(p, req):
             inner = nest(first, "output") + nest(second, "output") + nest(I("SCALAR"), "output")
             logs.append(nest(I("SCHEMA"), "schema", nest(q, "field", [("resolver", fname, "call")]) + inner))
         return datas, logs
+    if kind in ("list-literal", "list-variable"):
+        # every item of `os` executes the same field node `h`: input-side hooks run once per field execution
+        leaf = compose("T:w", I("SCALAR"))
+        arg = compose(leaf, I("ARGUMENT_DEFINITION"))
+        out = "out:" + compose(render(arg), I("SCALAR"))
+        per_item = []
+        if kind == "list-literal":
+            per_item += nest(I("SCALAR"), "input")
+        per_item += nest(I("ARGUMENT_DEFINITION"), "argument") + [("resolver", "h", "call")] + nest(I("SCALAR"), "output")
+        log = [("resolver", "os", "call")]
+        for _ in range(2):
+            log += nest(I("OBJECT"), "output") + per_item
+        if kind == "list-variable":
+            log = nest(I("SCALAR"), "input") + log
+        return [{"os": [{"h": out}, {"h": out}]}], [nest(I("SCHEMA"), "schema", log)]
     if kind in ("enum-literal", "enum-variable"):
         datas = [{"en": "ONE"}]
         logs = []
@@ -255,6 +283,8 @@ def requests():
             out.append({"kind": "y-variable", "field": "f", "text": "query($y: Tag) { f(y: $y) }", "vars": {"y": "w"}, "query_dirs": qd})
             out.append({"kind": "y-literal", "field": "g", "text": '{ g(y: "w") }', "vars": None, "query_dirs": qd})
             out.append({"kind": "y-variable", "field": "g", "text": "query($y: Tag) { g(y: $y) }", "vars": {"y": "w"}, "query_dirs": qd})
+            out.append({"kind": "list-literal", "text": '{ os { h(y: "w") } }', "vars": None, "query_dirs": qd})
+            out.append({"kind": "list-variable", "text": "query($y: Tag) { os { h(y: $y) } }", "vars": {"y": "w"}, "query_dirs": qd})
             out.append({"kind": "enum-literal", "text": "{ en(v: ONE) }", "vars": None, "query_dirs": qd})
             out.append({"kind": "enum-variable", "text": "query($v: E) { en(v: $v) }", "vars": {"v": "ONE"}, "query_dirs": qd})
         if len(qd) == 2:
